@@ -14,7 +14,7 @@ ID = "C10"
 BIN = ["gp", "op", "ip", "lc", "rc", "sp", "cp", "acp", "add", "sub", "rp", "sw", "proj", "div"]
 UN = ["neg", "reverse", "involute", "conjugate", "normsq", "hodge", "unhodge", "inv", "sqrt", "outerexp", "polarity"]
 HEAVY = {"inv", "div", "sw", "proj", "sqrt", "normsq", "outerexp"}
-TYPES = ["int", "float", "Fraction", "complex", "np.float64", "ndarray", "sympy.Symbol", "sympy.expr", "mixed"]
+TYPES = ["int", "float", "Fraction", "complex", "np.float64", "ndarray", "sympy.Symbol", "sympy.expr", "mixed", "sympy.withzero", "int.withzero"]
 PROGRAMS = [
     (2, "def f(a, b): return a * b + (a >> b)"),
     (2, "def f(a, b): return (a | b) * ~b"),
@@ -166,6 +166,12 @@ def _values(keys, typ, vseed, tag):
         return [sympy.Symbol(f"{tag}{k}") + b for k, b in zip(keys, base)]
     if typ == "mixed":
         return [sympy.Symbol(f"{tag}{k}") if i == 0 else b for i, (k, b) in enumerate(zip(keys, base))]
+    if typ == "sympy.withzero":
+        # symbols next to coefficients that are exactly zero (int 0, sympy zero, x - x): the key pattern is still the same
+        zs = [0, sympy.Integer(0), sympy.Symbol("t") - sympy.Symbol("t"), 0.0]
+        return [sympy.Symbol(f"{tag}{k}") if i % 2 == 0 else zs[(i + vseed) % len(zs)] for i, k in enumerate(keys)]
+    if typ == "int.withzero":
+        return [0 if i % 2 else b for i, b in enumerate(base)]
     raise KeyError(typ)
 
 
